@@ -295,6 +295,50 @@ class ChooserModel:
         return outs, len(ps)
 
 
+def threshold_api(facts, M):
+    """the Response's chunking threshold seen through its API: (getter, setter, fields read by the getter as {(owner adt, field)}).
+    getter: the public `&self -> usize` method of Response; setter: the public `(self, usize) -> Response` method"""
+    if hasattr(facts, "_thr_api"):
+        return facts._thr_api
+    import inline
+    ms = [g for k, g in sorted(facts.local_fns.items()) if g.rec.get("impl_self_adt") == RESP and g.rec.get("impl_trait") is None and g.rec.get("vis_pub") and "{closure" not in k]
+    getters = [g for g in ms if g.argc == 1 and g.locals[0]["ty"] == "usize" and re.match(r"^&(?!mut )", g.locals[1]["ty"])]
+    setters = [g for g in ms if g.argc == 2 and g.locals[2]["ty"] == "usize" and g.locals[1]["ty"].startswith(RESP) and g.locals[0]["ty"].startswith(RESP)]
+    getter = getters[0] if len(getters) == 1 else None
+    setter = setters[0] if len(setters) == 1 else None
+    fields = set()
+    if getter is not None:
+        gi = inline.inlined(facts, getter.id, stop=lambda d: facts.fns[d].rec.get("local") and facts.fns[d].file != getter.file)
+        names = set()
+        for bb, i, s_ in gi.assigns():
+            for p_, kind in rvalue_places(s_["rhs"]):
+                names |= set(pl_fields(p_))
+        for bb, t in gi.calls():
+            for a in t["args"]:
+                pl_ = op_place(a)
+                if pl_:
+                    names |= set(pl_fields(pl_))
+        # owners: the Response itself and the private structs reachable from it
+        seen, work = set(), [RESP]
+        while work:
+            aid = work.pop()
+            a = facts.adts.get(aid)
+            if a is None or aid in seen or a["kind"] != "Struct":
+                continue
+            seen.add(aid)
+            for x in a["variants"][0]["fields"]:
+                if x["name"] in names and not x["name"].isdigit():
+                    fields.add((aid, x["name"]))
+                work.append(re.sub(r"<.*$", "", x["ty"]))
+        # only the field(s) that hold the threshold: of integer-ish type (usize, Option<usize>, a newtype of the crate), not the reader / headers
+        def thr_ty(ty):
+            return ty in ("usize", "std::option::Option<usize>") or (ty in facts.adts and facts.adts[ty]["kind"] == "Struct" and
+                                                                     [y["ty"] for y in facts.adts[ty]["variants"][0]["fields"]] in (["usize"], ["std::option::Option<usize>"]))
+        fields = {(o_, f_) for o_, f_ in fields if thr_ty([x["ty"] for x in facts.adts[o_]["variants"][0]["fields"] if x["name"] == f_][0])}
+    facts._thr_api = (getter, setter, fields)
+    return facts._thr_api
+
+
 def chooser_model(facts):
     if not hasattr(facts, "_chooser_model"):
         facts._chooser_model = ChooserModel(facts)
@@ -431,15 +475,15 @@ def run(ctx):
             ctx.ob("C05.3", "%s|passes-request-headers" % raw_print.id, "... on the request's headers", any(x == ("arg", 4) for x in origin_walk(o["headers"])), rf.loc(bb), origin_str(o["headers"]))
         ctx.ob("C05.3", "%s|passes-request-version" % raw_print.id, "... on the request's HTTP version", any(x == ("arg", 3) for x in origin_walk(o["version"])), rf.loc(bb), origin_str(o["version"]))
         ctx.ob("C05.3", "%s|passes-declared-length" % raw_print.id, "... on the response's declared length", M.dlen_f in origin_fields(o["length"]), rf.loc(bb), origin_str(o["length"]))
-        thr_f = [n for n in M.len_f if n != M.dlen_f]
-        okt = False
-        if thr_f:
+        getter_, setter_, thr_fields_ = threshold_api(facts, M)
+        tf_names = {fld for owner, fld in thr_fields_}
+        okt = (getter_ is not None and any(x[0] == "call" and x[1] == getter_.id for x in origin_walk(o["threshold"]))) or bool(tf_names & origin_fields(o["threshold"]))
+        if not okt and tf_names:
             sl = shared.backward_slice_locals(rf, [x[1] for x in origin_walk(o["threshold"]) if x[0] == "local"] + ([op_local(t["args"][P["threshold"][0] - 1])] if not P["threshold"][1] else []))
-            okt = thr_f[0] in origin_fields(o["threshold"])
             for b2, i2, s2 in rf.assigns():
                 if s2["lhs"]["l"] in sl:
                     for p_, kind in rvalue_places(s2["rhs"]):
-                        if thr_f[0] in pl_fields(p_):
+                        if tf_names & set(pl_fields(p_)):
                             okt = True
         ctx.ob("C05.3", "%s|passes-threshold" % raw_print.id, "... and on the response's chunking threshold", okt, rf.loc(bb), origin_str(o["threshold"]))
 
@@ -483,35 +527,57 @@ def run(ctx):
                 detail = "%s vs %s -> %s" % (a, b, sorted(rets)[:2])
         ctx.ob("C05.2", "%s|tuple-delegates" % g0.id, "comparison with a (major, minor) tuple follows the same order", ok, "%s:%d" % (g0.file, g0.line), detail)
 
-    # ---- C05.3 threshold
-    ctx.require(len(M.thr_paths) == 1, "C05.3: chunking-threshold field of Response")
-    TF = M.thr_paths[0][-1]
-    TF_OWNER, _ = shared.owner_of_path(facts, RESP, M.thr_paths[0])
-    TF_KEY = tuple("." + x for x in M.thr_paths[0])
-    getters = [g for k, g in facts.local_fns.items() if g.rec.get("impl_self_adt") == RESP and g.argc == 1 and g.locals[0]["ty"] == "usize" and TF in {fl for bb, i, s in g.assigns() for p_, kind in rvalue_places(s["rhs"]) for fl in pl_fields(p_)}]
-    ok = len(getters) == 1
+    # ---- C05.3 threshold: judged through the Response's own API, whatever the field looks like (an `Option<usize>` with the default applied
+    # in the getter, a newtype that stores the effective value, ...): a response made by the constructor answers 32768, and one that went
+    # through the setter answers the setter's argument
+    getter, setter, thr_fields = threshold_api(facts, M)
+    ctx.require(getter is not None, "C05.3: the public getter of the chunking threshold (`&self -> usize` of Response)")
+    import rules_C19 as _C19
+    rnew = roles.inherent(facts, RESP, "new")
+    stop_f = lambda d: facts.fns[d].rec.get("local") and facts.fns[d].file != cte.file
+    def eval_fn(g0, bind):
+        g = inline.inlined(facts, g0.id, stop=stop_f, extern_ok=Q.std_small)
+        st = symex.Sym(g)
+        for k_, v_ in bind.items():
+            st.write_key(k_, v_)
+        return g, [p for p in absint.explore(g, 0, st, max_paths=4000) if p.end[0] == "return"]
+    fresh = []
+    gnew, psn = eval_fn(rnew, {})
+    for p in psn:
+        r = absint.freeze(p.state, p.ret())
+        if r and r[0] == "agg" and r[1] == RESP and repr(r) not in [repr(x) for x in fresh]:
+            fresh.append(r)
+    def threshold_of(resp):
+        base = (1, "*") if getter.locals[1]["ty"].startswith("&") else (1,)
+        g, ps = eval_fn(getter, {base: resp})
+        return {absint.const_of(absint.deep(p.state, p.ret())) for p in ps}
+    ok = bool(fresh)
+    detail = None
+    for r in fresh[:6]:
+        got = threshold_of(r)
+        if got != {32768}:
+            ok, detail = False, "a freshly built response answers %s" % sorted(map(str, got))
+    ctx.ob("C05.3", "%s|default-32768" % RESP, "the threshold is the configured one, 32768 by default", ok, where, detail)
+    ok = setter is not None and bool(fresh)
     detail = None
     if ok:
-        g = inline.inlined(facts, getters[0].id, stop=lambda d: facts.fns[d].rec.get("local") and facts.fns[d].file != cte.file, extern_ok=Q.std_small)
-        for val, want in ((None, 32768), (5, 5), (0, 0)):
-            st = symex.Sym(g)
-            base = (1, "*") if g.locals[1]["ty"].startswith("&") else (1,)
-            st.write_key(base + TF_KEY, ("none",) if val is None else ("some", ("const", val, "%d_usize" % val, None)))
-            rets = {absint.const_of(p.ret()) for p in absint.explore(g, 0, st) if p.end[0] == "return"}
-            if rets != {want}:
-                ok = False
-                detail = "%s -> %s" % (val, rets)
-    ctx.ob("C05.3", "%s|default-32768" % RESP, "the threshold is the configured one, 32768 by default", ok, where, detail)
-    setters = {g.id for g, bb, kind, x in facts.field_writes(TF_OWNER, TF) if kind in ("assign", "calldest", "mutref")}
-    ok = len(setters) == 1
-    if ok:
-        wct = facts.fn(sorted(setters)[0])
-        ws = [(bb, x) for g, bb, kind, x in facts.field_writes(TF_OWNER, TF) if g.id == wct.id and kind == "assign"]
-        ok = len(ws) == 1
-        if ok:
-            o = wct.origin(ws[0][1]["rhs"]["op"])
-            ok = o[0] == "agg" and o[4] == "Some" and o[2][0] == ("arg", 2) and wct.rec.get("vis_pub")
-    ctx.ob("C05.3", "%s|threshold-setter-stores-argument" % RESP, "the threshold is changed only by its public setter, which stores exactly its argument", ok, where, str(sorted(setters)))
+        for n_ in (5, 0, 100000):
+            g, ps = eval_fn(setter, {(1,): fresh[0], (2,): ("const", n_, "%d_usize" % n_, None)})
+            outs = [absint.freeze(p.state, p.ret()) for p in ps]
+            if not outs:
+                ok, detail = False, "the setter does not return"
+            for r in outs:
+                got = threshold_of(r)
+                if got != {n_}:
+                    ok, detail = False, "after setting %d the response answers %s" % (n_, sorted(map(str, got)))
+    # ... and nothing else writes what the getter reads
+    writers = set()
+    for owner, fld in sorted(thr_fields):
+        for g, bb, kind, x in facts.field_writes(owner, fld):
+            if kind in ("assign", "calldest", "mutref"):
+                writers.add(g.id)
+    ok = ok and writers <= {setter.id if setter is not None else None} and (setter is None or setter.rec.get("vis_pub"))
+    ctx.ob("C05.3", "%s|threshold-setter-stores-argument" % RESP, "the threshold is changed only by its public setter, which stores exactly its argument", ok, where, detail or str(sorted(writers)))
 
     import rules_C19
     rules_C19.conv_fields(ctx, facts, "C05.3")
